@@ -3,7 +3,7 @@
 Stages
   1. constants of the tree (SFE_* numbers, masks, error-message table) -> Generated/C03Consts.lean; Lean stage + axiom audit
   2. ties between model and code
-     a. header cache: parametrised AU / WAV / AIFF / CAF headers whose chunk sizes cross the growth boundaries
+     a. header cache: parametrised AU headers and WAV chunk walks (AIFF / CAF not yet) whose chunk sizes cross the growth boundaries
         (256 … 65536, the 100 KiB cap, 2^31); the library's parse log ("Request for header allocation of N denied",
         "psf_fread returned short count") and the open result are compared with the model run on the same
         psf_binheader_readf call sequence
@@ -297,11 +297,57 @@ def replay(ctx, path, known):
         if l:
             print(l[:400])
     v, _ = c03fuzz.judge(ops, out, known)
+    tr, status, stray = c03fuzz.split_transcript(out)
+    for l in text.split("--- script", 1)[0].split("\n"):
+        if v is None and l.startswith("expect-last ") and (not tr or l[len("expect-last "):].strip() not in tr[-1]):
+            v = (len(tr) - 1, "last transcript line does not contain %r" % l[len("expect-last "):].strip())
     if v is not None:
-        print("replay: C03 predicate fails at operation %d (%s): %s" % (v[0], ops[v[0]][:80] if v[0] < len(ops) else "?", v[1]))
+        print("replay: C03 predicate fails at operation %d (%s): %s" % (v[0], ops[v[0]][:80] if 0 <= v[0] < len(ops) else "?", v[1]))
         ctx.report(path)
     else:
         print("replay: the C03 predicate holds on this transcript (no violation on this tree)")
+
+
+def regression_scripts(ctx, known):
+    """Witnesses of repaired findings are regression tests: they run first on every run, in a forked ASan child with the
+    per-call alarm.  The C03 predicate must hold on the transcript and the `expect-last` line of the file must be met;
+    otherwise the defect is back: VIOLATION with the script as the replay."""
+    here = os.path.dirname(os.path.dirname(os.path.dirname(os.path.abspath(__file__))))
+    n = 0
+    bad = 0
+    for e in ctx.known:
+        if e.get("status") != "fixed" or not e.get("witness"):
+            continue
+        path = os.path.join(here, e["witness"])
+        if not os.path.exists(path):
+            continue
+        text = open(path).read()
+        if "--- script" not in text:
+            continue
+        head, script = text.split("--- script", 1)
+        script = script.lstrip("\n")
+        ops = [l for l in script.split("\n") if l.strip()]
+        out = ctx.batch([("reg", script)], op_timeout=OP_TIMEOUT, workers=1).get("reg", [])
+        v, _ = c03fuzz.judge(ops, out, known)
+        tr, status, stray = c03fuzz.split_transcript(out)
+        why = None
+        if v is not None:
+            why = "the C03 predicate fails at operation %d: %s" % (v[0], v[1])
+        else:
+            for l in head.split("\n"):
+                if l.startswith("expect-last ") and (not tr or l[len("expect-last "):].strip() not in tr[-1]):
+                    why = "last transcript line %r does not contain %r" % (tr[-1][:120] if tr else "", l[len("expect-last "):].strip())
+        n += 1
+        ctx.count(1, tag="regression-" + e["id"])
+        if why:
+            bad += 1
+            ctx.violation("regression-" + e["id"],
+                          "# C03: the repaired defect %s (fixed in %s) is back: %s\n# %s\n# transcript:\n%s\n%s--- script\n%s"
+                          % (e["id"], e.get("commit", "?"), why, e.get("signature", ""), "\n".join("#   " + l[:300] for l in out if l),
+                             "".join(l + "\n" for l in head.split("\n") if l.startswith("expect-last ")), script))
+    ctx.notes["regression_scripts_run"] = n
+    ctx.notes["regression_scripts_failed"] = bad
+    return bad
 
 
 PIPE_KF = ("KF-C03-sds-pipe-scan", "KF-C03-pipe-chunk-loop", "KF-C03-svx-backjump")
@@ -345,6 +391,9 @@ def run(ctx):
         return replay(ctx, ctx.replay, known)
     failed = ctx.lean_stage(["SfProps.C03"])
     found_input = False
+
+    if regression_scripts(ctx, known):
+        found_input = True
 
     from . import c03ties
     tie_problems = c03ties.run_ties(ctx, c)
